@@ -66,7 +66,7 @@ def fusion_inputs(case, f):
     coordinates of mid: [{id, s, e, alt, ok}], ok = strictly inside its piece.  Legacy fusions (exonic, stored
     with bp / abp only) have empty pieces."""
     if 'g_last' not in f:
-        return {'bp': f['bp'], 'mid': '', 'mrecs': [], 'abp': f['abp']}
+        return {'bp': f['bp'], 'mid': '', 'mrecs': [], 'abp': f['abp'], 'nleft': 0}
     world = case['world']
     gd = CG.find_gene(world, f['donor_gene']); ga = CG.find_gene(world, f['acc_gene'])
     td = next(t for t in gd['transcripts'] if t['id'] == f['donor_tx'])
@@ -90,7 +90,7 @@ def fusion_inputs(case, f):
                               # piece is placed differently by the engine: left to MAY, see docs/C01.md)
                               'ok': iv[0] < s and e < iv[1] and len(alt) == len(ref), 'kind': 'piece'})
     mrecs.sort(key=lambda r: (r['s'], r['e'], r['id']))
-    return {'bp': bp, 'mid': left + right, 'mrecs': mrecs, 'abp': abp}
+    return {'bp': bp, 'mid': left + right, 'mrecs': mrecs, 'abp': abp, 'nleft': len(left)}
 
 # ------------------------------------------------------------------ generator
 def _small(rng, gseq, gs, multi=False):
@@ -246,6 +246,22 @@ def gen_fusion_case2(rng, coding_p=0.8, multi_p=0.35):
     raise RuntimeError('fusion generator failed')
 
 
+def _circle_too_dense(c):
+    """the engine's four-copy circRNA graph explodes on a short circle crowded with records (28 nt with 5 records
+    at --max-variants-per-node 7: > 15 min, > 5 GB; a cost matter, not a property one): the bound of
+    cvgen2.gen_circ_case applied AFTER the records this generator adds: at most max(2, L/15) records on a circle
+    of L nt and fewer than two indels on a circle shorter than 60 nt"""
+    for cr in c['circ_records']:
+        L = sum(b - a for a, b in cr['frags'])
+        ins = {}
+        for r in c['gvf']:
+            if r[5] == cr['tx'] and any(a <= r[1] - 1 < b or a < r[1] - 1 + len(r[3]) <= b for a, b in cr['frags']):
+                ins[r[2]] = len(r[3]) != len(r[4])
+        if len(ins) > max(2, L // 15) or (L < 60 and sum(ins.values()) >= 2):
+            return True
+    return False
+
+
 def gen_fusion_circ_case(rng):
     """a circRNA (harness/lib/cvgen2.gen_circ_case) and a fusion on the SAME transcript: the transcript that
     gives the circle is also the donor of a fusion whose breakpoint lies upstream of or inside the circle, with
@@ -291,6 +307,8 @@ def gen_fusion_circ_case(rng):
             for t in gd['transcripts']:
                 if CG.map_record(gd, t, gs, gs + 1)[0] != 'outside':
                     c['gvf'].append([gd['id'], gs + 1, CG.var_id(gs, ref, alt), ref, alt, t['id'], gd['name']])
+        if _circle_too_dense(c):
+            continue
         c['tag'] = 'fusion+circ'
         return c
     raise RuntimeError('fusion+circ generator failed')
